@@ -2,7 +2,7 @@ import AbraModel.Lib.Render
 import AbraModel.Drv.Util
 /- Driver for the rendering model (C28).
    Request: `render print v | render println v | render str v | render cat v w`
-   value  := I <int> | B T | B F | N | S <hex utf-8> | A <n> v1 … vn | T <n> v1 … vn (n = 2,3,4)
+   value  := X <hex text of a float / user-type / channel value's own str> | I <int> | B T | B F | N | S <hex utf-8> | A <n> v1 … vn | T <n> v1 … vn (n = 2,3,4)
            | SOME v | NONE | OK v | ERR v
            | render multi <stmt> ; <stmt> ; …    (one program rendering the same values several times)
    stmt   := print v | println v | str v | chain <n> v1 … vn | lit <hex> | eq v w   (`print(v == w)`)
@@ -20,6 +20,12 @@ mutual
       match unhex hx with
       | some bs => match String.fromUTF8? (ByteArray.mk bs.toArray) with
         | some s => some (.str s, rest)
+        | none => none
+      | none => none
+    | "X" :: hx :: rest =>
+      match unhex hx with
+      | some bs => match String.fromUTF8? (ByteArray.mk bs.toArray) with
+        | some s => some (.ext s, rest)
         | none => none
       | none => none
     | "A" :: n :: rest =>
@@ -56,6 +62,7 @@ partial def valEq : Val → Val → Bool
   | .bool a, .bool b => a == b
   | .nil, .nil => true
   | .str a, .str b => a == b
+  | .ext a, .ext b => a == b
   | .arr xs, .arr ys => xs.length == ys.length && (List.zipWith valEq xs ys).all id
   | .tup2 a b, .tup2 c d => valEq a c && valEq b d
   | .tup3 a b c, .tup3 d e f => valEq a d && valEq b e && valEq c f
